@@ -174,6 +174,11 @@ def check(ctx):
     from . import C24
     C24.rule_readonly(ctx, R="C18.read-only")
 
+    # a block reused in Repeat / Merge / Nest keeps its constraints' captured windows only if a constraint rebuilt during weight
+    # desugaring carries that state over (C23's field-carry rule, evaluated here as C18.carry)
+    from . import C23 as _C23
+    _C23.rule_carry(ctx, R="C18.carry")
+
     mod = sys.modules[__name__]
     control(ctx, mod, "drop the copy in _create",
             lambda s: variants.in_function(s, "sweetpea/_internal/cross_block.py", "MultiCrossBlockRepeat._create",
